@@ -5,7 +5,7 @@ ROOT="$(cd "$(dirname "$0")" && pwd)"
 export GOFLAGS=-mod=mod GOPROXY=off GOSUMDB=off GOTOOLCHAIN=local
 mkdir -p "$ROOT/.build" "$ROOT/evidence"
 cd "$ROOT/harness" || exit 1
-cp /repo/go.sum ./go.sum
+[ -f go.sum ] || cp /repo/go.sum ./go.sum
 go version || exit 1
 go build -tags verif -o "$ROOT/.build/vcheck" ./cmd/vcheck || exit 1
 go build -race -tags verif -o "$ROOT/.build/vcheck-race" ./cmd/vcheck || exit 1
